@@ -24,6 +24,7 @@ type schedReader struct {
 	faultStop bool
 	delivered int
 	fired     bool
+	faultErr  error // what the injected fault returns (errInjected unless set)
 }
 
 func (s *schedReader) Read(p []byte) (int, error) {
@@ -32,6 +33,9 @@ func (s *schedReader) Read(p []byte) (int, error) {
 	}
 	if s.faultAt >= 0 && s.delivered == s.faultAt && (!s.fired || s.faultStop) {
 		s.fired = true
+		if s.faultErr != nil {
+			return 0, s.faultErr
+		}
 		return 0, errInjected
 	}
 	if len(s.data) == 0 {
